@@ -158,13 +158,17 @@ func packTar(
 			tee := io.MultiWriter(tw, hasher)
 			_, err := io.Copy(tee, file)
 			if err != nil {
-				return err
+				return Errorf(rio.ErrWarehouseUnwritable, "error while writing pack: %s", err)
 			}
 			bucket.AddRecord(*fmeta, hasher.Sum(nil))
 		}
 		return nil
 	}
 	if err := fs.Walk(afs, preVisit, nil); err != nil {
+		if _, ok := Category(err).(rio.ErrorCategory); !ok {
+			// Errors from reading the fileset itself (permissions, vanishing files) carry fs categories.
+			err = Errorf(rio.ErrPackInvalid, "error while reading fileset to pack: %s", err)
+		}
 		return api.WareID{}, err
 	}
 
